@@ -613,19 +613,20 @@ impl Check for C05Recursive {
         "C05.recursive_macros"
     }
     fn cases(&self, tier: Tier) -> u64 {
-        tier.pick(30_000, 600_000)
+        tier.pick(40_000, 1_000_000)
     }
     fn strategy(&self, _t: Tier) -> BoxedStrategy<CaseRec> {
         (vec(any::<u32>(), 0..300), 1u8..4, 0usize..1000)
             .prop_map(|(tape, depth, root)| {
-                let mut g = Gen::new(&tape, GenCfg { ill: 2, chars: Chars::Bmp, bind_bias: true, exclude: vec!["exec", "trigger", "now", "define"], ..GenCfg::default() });
+                let mut g = Gen::new(&tape, GenCfg { ill: 2, chars: Chars::Bmp, bind_bias: true, exclude: vec!["exec", "trigger", "now", "define", "cross"], ..GenCfg::default() });
                 let mut env = Env::top();
-                // (the counter :d is not offered to the generator: it would rebind it)
+                // (cross multiplies the sizes of its arguments, which here grow with every level;
+                // the counter :d is not offered to the generator: it would rebind it)
                 let k = *g.tape.pick(&[Any, Num, Str, ArrNum, Bool]);
                 env.macros.push(("r".to_string(), k));
                 // stratified roots; the macro occurs at least once (an extra argument slot if needed)
                 let si = root % SIGS.len();
-                let mut e = if IMPURE.contains(&SIGS[si].f) || matches!(SIGS[si].f, "define" | "set" | ":" | "@") { g.expr(k, 3, &env) } else { g.call_sig(si, Any, 3, &env) };
+                let mut e = if IMPURE.contains(&SIGS[si].f) || matches!(SIGS[si].f, "define" | "set" | ":" | "@" | "cross") { g.expr(k, 3, &env) } else { g.call_sig(si, Any, 3, &env) };
                 if !e.any(&|x| is_self_ref(x)) {
                     e = Expr::call("default", vec![e, Expr::Mac("r".into())]);
                 }
@@ -650,7 +651,11 @@ impl Check for C05Recursive {
         }
         let body = Expr::call("?", vec![Expr::call("<", vec![Expr::Var("d".into()), Expr::lit("1")]), Expr::Lit(c.base.clone()), reenter(&c.e)]);
         let args = vec![format!("--set=d={}", c.depth), format!("--set=@r={}", canon(&body)), "--select=@r = v".to_string()];
+        let t0 = std::time::Instant::now();
         let o = run(&args, c.inputs.join("\n").as_bytes());
+        if std::env::var("JV_TIMING").is_ok() && t0.elapsed().as_millis() > 300 {
+            eprintln!("SLOW {:?} {}", t0.elapsed(), crate::runner::trunc(&args[1], 400));
+        }
         if let Err(m) = judge(&o) {
             return CaseResult::Fail(format!("{} [args {:?}]", m, args));
         }
@@ -746,11 +751,17 @@ pub fn run_all(ctx: &mut Ctx) {
     for p in 1..4u8 {
         run_exhaustive(ctx, p, l_other);
     }
+    let t0 = std::time::Instant::now();
     C05Bytes.run(ctx);
+    if std::env::var("JV_TIMING").is_ok() { eprintln!("bytes done {:?}", t0.elapsed()); }
     C05Expr.run(ctx);
+    if std::env::var("JV_TIMING").is_ok() { eprintln!("expr done {:?}", t0.elapsed()); }
     C05Recursive.run(ctx);
+    if std::env::var("JV_TIMING").is_ok() { eprintln!("recursive done {:?}", t0.elapsed()); }
     run_pools(ctx);
+    if std::env::var("JV_TIMING").is_ok() { eprintln!("pools done {:?}", t0.elapsed()); }
     run_directed(ctx);
+    if std::env::var("JV_TIMING").is_ok() { eprintln!("directed done {:?}", t0.elapsed()); }
 }
 
 pub fn checks() -> Vec<Box<dyn DynCheck>> {
